@@ -67,8 +67,8 @@ PROPS["C01"] = {
     "bounds": "engine M: BUFFER_SIZE 2 (quick) / 4 (thorough); 3-4 threads of 1-2 operations each + a drain thread that runs after all others; pre-filled 0..N events; sequence origin any u32; payloads distinct symbolic u32; step bound = sum of the longest acyclic paths + slack (stated per query)",
     "outside": "more than 4 threads / 2 operations per thread; BUFFER_SIZE > 4; orderings weaker than SC; the crossbeam channel; channel-level wake-ups (see C04)",
     "assumptions": [_M_NOTE, "exactly-once oracle: every value received is an accepted (or pre-filled) one, none twice, none lost after the final drain; a panic or an out-of-bounds / dangling access anywhere also counts"],
-    "m": [M("c01_atomic_1p2c_n2_k2"), M("c01_atomic_2p1c_n2_k1"), M("c01_fullsync_2p1c_n2_k1"), M("c01_zc_atomic_1p1c_n2_k1"), M("c01_zc_fullsync_1p1c_n2_k1"),
-          M("c01_atomic_2p1c_n2_k0", "thorough"), M("c01_atomic_2p2c_n2_k1", "thorough"), M("c01_atomic_2p2c_n4_k3", "thorough"), M("c01_atomic_3p1c_n2_k1", "thorough"),
+    "m": [M("c01_atomic_1p2c_n2_k2"), M("c01_atomic_2p1c_n2_k1"), M("c01_fullsync_2p1c_n2_k1"), 
+          M("c01_zc_atomic_1p1c_n2_k1", "thorough"), M("c01_zc_fullsync_1p1c_n2_k1", "thorough"), M("c01_atomic_2p1c_n2_k0", "thorough"), M("c01_atomic_2p2c_n2_k1", "thorough"), M("c01_atomic_2p2c_n4_k3", "thorough"), M("c01_atomic_3p1c_n2_k1", "thorough"),
           M("c01_fullsync_2p2c_n2_k1", "thorough"), M("c01_zc_atomic_2p1c_n2_k1", "thorough"), M("c01_zc_fullsync_2p1c_n2_k1", "thorough")],
     "k": [
         H("c01::c01_ring_atomic_n2_l5", inst="AtomicMove<u32,2>", bounds="L=5 ops {send, send_with, recv, len}, origin any u32, then drain + refill", oracle="array FIFO model; rejected payload/setter handed back unchanged / un-invoked", stubs=_C08_STUBS),
@@ -173,7 +173,7 @@ PROPS["C04"] = {
     "bounds": "engine M: uni movable full-sync and atomic channels, MAX_STREAMS 1, one stream whose task is driven by an executor model (poll_next; park when Pending; re-poll when its waker was invoked); 1 producer x 1-2 sends (quick), 2 producers / 3 sends with BUFFER_SIZE 4 (thorough); stream either never polled before or parked with its waker registered; violation = quiescent state with producers returned, task parked and un-woken, event pending; functions: <channel>::send, StreamsManagerBase::{wake_stream, register_stream_waker, keep_stream_running}, MutinyStream::poll_next, <channel>::consume, ring publish/consume",
     "outside": "send_with / send_with_async / try_send_reserved wake rules and the Multi channels' send_derived (not encoded in this round); MAX_STREAMS 2; Tokio's own wake-to-poll latency (the model re-polls whenever woken); zero-copy and crossbeam channels",
     "assumptions": [_M_NOTE, "a Waker is an abstract task id; Waker::{clone, will_wake, wake_by_ref} are intrinsics; ogre_sync::lock's retry ladder is encoded as one retrying CAS after its MIR was checked to be exactly that"],
-    "m": [M("c04_full_sync_first_park_vs_send"), M("c04_full_sync_parked_vs_send"), M("c04_atomic_first_park_vs_send"), M("c04_atomic_parked_vs_two_sends"),
+    "m": [M("c04_full_sync_first_park_vs_send"), M("c04_full_sync_parked_vs_send"), M("c04_atomic_first_park_vs_send"), M("c04_atomic_parked_vs_two_sends", "thorough"),
           M("c04_full_sync_parked_vs_two_producers", "thorough"), M("c04_atomic_parked_vs_three_sends_n4", "thorough")],
     "k": [],
 }
@@ -186,4 +186,15 @@ PROPS["C05"] = {
     "k": [H("c05::c05_ring_atomic_teardown_n2_l4", inst="AtomicMove<Tracked,2>", bounds="L=4 then drop with leftovers", oracle="drop counter per payload == 1 iff accepted", stubs=_C08_STUBS),
           H("c05::c05_ring_full_sync_teardown_n2_l4", inst="FullSyncMove<Tracked,2>", bounds="L=4 then drop with leftovers", stubs=_C08_STUBS)],
     "k_budget": {"quick": {"jobs": 2, "timeout_s": 1200, "mem_gb": 14}},
+}
+PROPS["C07"] = {
+    "engine": "mir-bmc", "technique": _M_TECH,
+    "bounds": "engine M: uni movable atomic and full-sync channels, MAX_STREAMS 1-2 with 1-2 streams, each stream's task driven by an executor model (poll_next; park when Pending; re-poll when its waker was invoked; return when it answers end-of-stream); the request is <channel>::cancel_all_streams() or StreamsManagerBase::cancel_stream(id) (what gracefully_end_stream issues after its flush), racing every step of poll_next (before the first poll, between the consume attempt / keep-running check and the waker registration, while parked, while items are buffered) and optionally one concurrent send; BUFFER_SIZE 2, 0-1 buffered events, origin any u32",
+    "outside": "the 1 ms re-wake loop of end_stream / end_all_streams (async fns over Tokio timers, see C06); stream-id recycling after the drop (sync_vacant_and_used_streams uses Vec/sort: outside the MIR subset; decided sequentially under C10); zero-copy, crossbeam and Multi channels (they share StreamsManagerBase and MutinyStream::poll_next verbatim and differ only in consume()); more than 2 streams",
+    "assumptions": [_M_NOTE, "a Waker is an abstract task id; Waker::{clone, will_wake, wake_by_ref} are intrinsics; the executor re-polls a task whenever its waker was invoked and never otherwise",
+                    "a targeted stream whose task returns has answered end-of-stream (the task model returns only on Poll::Ready(None))"],
+    "functions": ["<uni channel>::{cancel_all_streams, send, consume, keep_stream_running, register_stream_waker}", "StreamsManagerBase::{cancel_all_streams, cancel_stream, wake_stream, register_stream_waker, keep_stream_running}", "MutinyStream::poll_next", "ring publish/consume"],
+    "m": [M("c07_atomic_cancel_all_vs_first_poll"), M("c07_atomic_cancel_all_vs_parked_k1"), M("c07_full_sync_cancel_all_vs_first_poll"), M("c07_atomic_cancel_one_of_two"), M("c07_atomic_cancel_all_vs_send", "thorough"),
+          M("c07_atomic_cancel_all_two_streams", "thorough"), M("c07_full_sync_cancel_all_vs_send_parked", "thorough"), M("c07_full_sync_cancel_one_of_two_parked", "thorough")],
+    "k": [],
 }
